@@ -238,7 +238,7 @@ pub fn replay(ctx: &mut Ctx, case: &Value) -> Result<(), Violation> {
         .map(|a| a.iter().filter_map(|x| x.as_str().and_then(Mv::parse_uci)).collect())
         .unwrap_or_default();
     let mut t = Tree { root: &start, prefix: &[], buckets: HashMap::new(), nodes: 0, cap: u64::MAX };
-    let mut run_path = |ctx: &mut Ctx, t: &mut Tree, ms: &[Mv]| -> Result<(), Violation> {
+    let run_path = |ctx: &mut Ctx, t: &mut Tree, ms: &[Mv]| -> Result<(), Violation> {
         let mut p = start.clone();
         let mut b = match gen::lib_start(&start) {
             Some(b) => b,
